@@ -15,6 +15,7 @@
 (*   guest_call_ret     sandboxed code got the result | trap | unwound     *)
 (*   guest_ret          the sandboxed function body returns                *)
 (*   inv_end            the invocation returned to the application         *)
+(*   setstate           the application set a sandbox's transition state   *)
 (*   timing             the timing records collected since the last one    *)
 (*                                                                         *)
 (* Abstract state: entry[s][e] = function registered behind entry point e; *)
@@ -41,6 +42,7 @@ CInit(sandboxes, hooks, longfits) ==
    stack  |-> <<>>,
    closed |-> [s \in sandboxes |-> <<>>],   \* completed crossings per sandbox (timing is per sandbox)
    unw    |-> FALSE,
+   tstate |-> [s \in sandboxes |-> s],   \* current per-sandbox transition state (a label)
    hooks  |-> hooks,        \* are transition hooks compiled in?
    fits   |-> longfits]     \* does a 2^40 "poison" value fit the sandbox ABI's long?
 
@@ -66,7 +68,7 @@ Allowed(st, ev) ==
          IF ~HooksOn(st) THEN TRUE
          ELSE /\ Len(st.stack) > 0
               /\ LET f == Top(st) IN
-                 /\ ev.state = f.s                               \* per-sandbox transition state
+                 /\ ev.state = st.tstate[f.s]                    \* the CURRENT per-sandbox transition state
                  /\ CASE f.k = "inv" /\ ev.kind = "INVOKE" /\ ev.dir = "in" ->
                            f.hook = "none" /\ ~f.ran /\ ev.who = "tree_fn"
                       [] f.k = "inv" /\ ev.kind = "INVOKE" /\ ev.dir = "out" ->
@@ -84,6 +86,9 @@ Allowed(st, ev) ==
             /\ ~(f.poison /\ ~st.fits)            \* an unrepresentable argument never arrives
             /\ (DispatchOn => ev.cur = f.s)       \* the executing sandbox is this one
             /\ ev.argok                           \* arguments arrived with their values
+    [] ev.e = "setstate" ->
+         \* the application changes the transition state of a sandbox (from a callback body)
+         Len(st.stack) > 0 /\ Top(st).k = "cb" /\ Top(st).ran /\ ev.s \in DOMAIN st.tstate
     [] ev.e = "guest_throw" ->
          Len(st.stack) > 0 /\ Top(st).k = "inv" /\ Top(st).ran /\ ~st.unw
     [] ev.e = "guest_call" ->
@@ -131,6 +136,7 @@ Apply(st, ev) ==
               ELSE [SetTop(st, [f EXCEPT !.hook = "closed"])
                       EXCEPT !.closed[f.s] = Append(@, <<ev.kind, ev.who>>)]
     [] ev.e = "guest_run" -> SetTop(st, [Top(st) EXCEPT !.ran = TRUE])
+    [] ev.e = "setstate" -> [st EXCEPT !.tstate[ev.s] = ev.state]
     [] ev.e = "guest_throw" -> [st EXCEPT !.unw = TRUE]
     [] ev.e = "guest_call" ->
          LET g == Top(st) IN
